@@ -260,23 +260,38 @@ fn inner_scoped(seed: u64, actions: &mut Vec<String>, calls_checked: &mut u64, n
     // the maker's closure returns the same node on every run in half of the histories
     let same_rhs = rng.chance(1, 2);
     let fixed = st.constant(-1i64);
-    let maker: Incr<i64> = {
+    // in half of the histories the bind that creates the memoised function is itself built by the
+    // closure of an outer bind: when the outer one re-runs, the inner bind and everything made in
+    // its scope is discarded
+    let nested = rng.chance(1, 2);
+    let osel = st.var(0i64);
+    let make_inner = {
         let (calls, stash, gen_ctr, basew, fixed) = (calls.clone(), stash.clone(), gen_ctr.clone(), base.watch(), fixed.clone());
-        msel.binds(move |ws, &v| {
-            let st = ws.upgrade().unwrap();
-            let gen = gen_ctr.get() + 1;
-            gen_ctr.set(gen);
-            let (calls, basew) = (calls.clone(), basew.clone());
-            let mut memo = st.weak_memoize_fn(move |k: i64| {
-                calls.borrow_mut().push((gen, k));
-                basew.map(move |b| b + k + 100 * v)
-            });
-            let ret = if same_rhs { fixed.clone() } else { memo(0) };
-            *stash.borrow_mut() = Some((gen, v, Box::new(memo)));
-            ret
-        })
+        move |msel_w: &Incr<i64>| -> Incr<i64> {
+            let (calls, stash, gen_ctr, basew, fixed) = (calls.clone(), stash.clone(), gen_ctr.clone(), basew.clone(), fixed.clone());
+            msel_w.binds(move |ws, &v| {
+                let st = ws.upgrade().unwrap();
+                let gen = gen_ctr.get() + 1;
+                gen_ctr.set(gen);
+                let (calls, basew) = (calls.clone(), basew.clone());
+                let mut memo = st.weak_memoize_fn(move |k: i64| {
+                    calls.borrow_mut().push((gen, k));
+                    basew.map(move |b| b + k + 100 * v)
+                });
+                let ret = if same_rhs { fixed.clone() } else { memo(0) };
+                *stash.borrow_mut() = Some((gen, v, Box::new(memo)));
+                ret
+            })
+        }
+    };
+    let maker: Incr<i64> = if nested {
+        let msel_w = msel.watch();
+        osel.bind(move |_| make_inner(&msel_w))
+    } else {
+        make_inner(&msel.watch())
     };
     let mut maker = Some((maker.observe(), maker, msel));
+    let mut osel_at_last_stabilise = 0i64;
     st.stabilise();
     let mut held: Vec<HeldInner> = vec![];
     let mut base_val = 10i64;
@@ -333,9 +348,15 @@ fn inner_scoped(seed: u64, actions: &mut Vec<String>, calls_checked: &mut u64, n
             }
             5 | 6 => {
                 if let Some((_, _, msel)) = &maker {
-                    let v = rng.below(3) as i64;
-                    msel.set(v);
-                    actions.push(format!("maker_input={v}"));
+                    if nested && rng.chance(1, 3) {
+                        let v = rng.below(3) as i64;
+                        osel.set(v);
+                        actions.push(format!("outer_input={v}"));
+                    } else {
+                        let v = rng.below(3) as i64;
+                        msel.set(v);
+                        actions.push(format!("maker_input={v}"));
+                    }
                 }
             }
             7 => {
@@ -353,6 +374,7 @@ fn inner_scoped(seed: u64, actions: &mut Vec<String>, calls_checked: &mut u64, n
                             // an unobserved bind does not re-run; keep the bookkeeping simple
                             sel.set(msel_at_last_stabilise);
                         }
+                        osel.set(osel_at_last_stabilise);
                         st.stabilise();
                         drop(m);
                         drop(sel);
@@ -366,18 +388,19 @@ fn inner_scoped(seed: u64, actions: &mut Vec<String>, calls_checked: &mut u64, n
                 st.stabilise();
                 if let Some((_, _, msel)) = &maker {
                     let v = msel.get();
-                    let reran = v != msel_at_last_stabilise;
+                    let reran = v != msel_at_last_stabilise || (nested && osel.get() != osel_at_last_stabilise);
                     msel_at_last_stabilise = v;
+                    osel_at_last_stabilise = osel.get();
                     let g = gen_ctr.get();
-                    if reran != (g != cur_gen) {
-                        return Err(format!("maker bind input changed={reran} but its closure ran {} time(s)", g - cur_gen));
+                    if reran != (g != cur_gen) || g > cur_gen + 1 {
+                        return Err(format!("maker bind (nested={nested}) input changed={reran} but its closure ran {} time(s)", g - cur_gen));
                     }
                     if reran && held.iter().any(|h| h.gen == cur_gen) {
                         *nontrivial = true;
                     }
                     cur_gen = g;
                 }
-                actions.push(format!("stabilise (generation now {cur_gen})"));
+                actions.push(format!("stabilise (generation now {cur_gen}, nested={nested})"));
                 for h in &held {
                     let Some(o) = &h.obs else { continue };
                     let got = o.try_get_value();
@@ -415,13 +438,230 @@ fn inner_scoped(seed: u64, actions: &mut Vec<String>, calls_checked: &mut u64, n
     Ok(())
 }
 
+// ------------------------------------------------------------------------------------------
+// a memoised function that calls its own memoised version, and memo tables keyed by nodes
+// ------------------------------------------------------------------------------------------
+
+type MemoFn = Rc<dyn Fn(i64) -> Incr<i64>>;
+
+pub fn run_history_rec(seed: u64) -> Outcome {
+    let mut actions = vec![];
+    let mut calls_checked = 0u64;
+    let mut nontrivial = false;
+    let r = catch_unwind(AssertUnwindSafe(|| inner_rec(seed, &mut actions, &mut calls_checked, &mut nontrivial)));
+    let violation = match r {
+        Ok(Ok(())) => None,
+        Ok(Err(m)) => Some(m),
+        Err(e) => Some(format!("panic: {}", crate::panic_message(e))),
+    };
+    Outcome { nontrivial, violation, actions, calls_checked }
+}
+
+fn inner_rec(seed: u64, actions: &mut Vec<String>, calls_checked: &mut u64, nontrivial: &mut bool) -> Result<(), String> {
+    const N: usize = 9;
+    let mut rng = Rng::new(seed ^ 0xf1b0);
+    let st = IncrState::new();
+    let base = st.var(1i64);
+    // ---- recursive family: F(0)=b, F(1)=b+1, F(n)=F(n-1)+F(n-2), all through one memo table ----
+    let fcalls: Rc<RefCell<Vec<i64>>> = Rc::new(RefCell::new(vec![]));
+    let fib: MemoFn = {
+        let slot: Rc<RefCell<Option<std::rc::Weak<dyn Fn(i64) -> Incr<i64>>>>> = Rc::new(RefCell::new(None));
+        let memoized = st.weak_memoize_fn({
+            let (slot, fcalls, basew) = (slot.clone(), fcalls.clone(), base.watch());
+            move |n: i64| -> Incr<i64> {
+                fcalls.borrow_mut().push(n);
+                if n < 2 {
+                    return basew.map(move |b| b + n);
+                }
+                let me: MemoFn = slot.borrow().as_ref().and_then(std::rc::Weak::upgrade).expect("verif: memo slot");
+                let (a, b) = (me(n - 1), me(n - 2));
+                a.map2(&b, |a, b| a + b)
+            }
+        });
+        let memo: MemoFn = Rc::new(move |n| {
+            let mut m = memoized.clone();
+            m(n)
+        });
+        slot.replace(Some(Rc::downgrade(&memo)));
+        memo
+    };
+    let fref = |b: i64, n: usize| -> i64 {
+        let mut v = vec![b, b + 1];
+        for i in 2..=n {
+            let x = v[i - 1] + v[i - 2];
+            v.push(x);
+        }
+        v[n]
+    };
+    // ---- chained tables: base_of(id) keyed by integer, view_of(node) keyed by the node itself ----
+    let (bcalls, vcalls): (Rc<RefCell<Vec<i64>>>, Rc<Cell<u32>>) = (Rc::new(RefCell::new(vec![])), Rc::new(Cell::new(0)));
+    let mut base_of = st.weak_memoize_fn({
+        let (bcalls, basew) = (bcalls.clone(), base.watch());
+        move |id: i64| {
+            bcalls.borrow_mut().push(id);
+            basew.map(move |b| b * 10 + id)
+        }
+    });
+    let mut view_of = st.weak_memoize_fn({
+        let vcalls = vcalls.clone();
+        move |source: Incr<i64>| {
+            vcalls.set(vcalls.get() + 1);
+            source.map(|x| x + 1000)
+        }
+    });
+    let mut held_f: Vec<(usize, Incr<i64>, Option<Observer<i64>>)> = vec![];
+    let mut held_v: Vec<(i64, Incr<i64>, Option<Observer<i64>>)> = vec![];
+    // a key of the recursive family is alive while a held node reaches it
+    let alive_f = |held: &Vec<(usize, Incr<i64>, Option<Observer<i64>>)>, k: usize| held.iter().any(|(n, _, _)| *n == k || (*n >= 2 && k < *n));
+    // stabilises since the key (or id) was last alive
+    let mut dead_rounds_f = [1u32; N + 1];
+    let mut dead_rounds_v = [1u32; 4];
+    let mut base_val = 1i64;
+    let n_actions = 20 + rng.below(40);
+    for _ in 0..n_actions {
+        match rng.below(10) {
+            0 | 1 | 2 => {
+                let n = rng.below(N + 1);
+                let before = fcalls.borrow().len();
+                let was_alive: Vec<bool> = (0..=N).map(|k| alive_f(&held_f, k)).collect();
+                let node = fib(n as i64);
+                let invoked: Vec<i64> = fcalls.borrow()[before..].to_vec();
+                *calls_checked += 1;
+                actions.push(format!("F({n}) invoked the function for {invoked:?}"));
+                for k in &invoked {
+                    if was_alive[*k as usize] {
+                        return Err(format!("the recursive memoised function was invoked for key {k} although a node for it is still referenced (call F({n}))"));
+                    }
+                }
+                let needed: Vec<usize> = if was_alive[n] { vec![] } else if n < 2 { vec![n] } else { (0..=n).filter(|k| !was_alive[*k]).collect() };
+                for k in needed {
+                    if dead_rounds_f[k] >= 1 && !invoked.contains(&(k as i64)) {
+                        return Err(format!("F({n}) did not invoke the function for key {k} although every reference to its node was gone and a stabilise had run"));
+                    }
+                }
+                if let Some((_, h, _)) = held_f.iter().find(|(m, _, _)| *m == n) {
+                    if *h != node {
+                        return Err(format!("F({n}) returned a different node while one is still held"));
+                    }
+                }
+                if invoked.len() > 1 {
+                    *nontrivial = true;
+                }
+                let o = if rng.chance(1, 2) { Some(node.observe()) } else { None };
+                held_f.push((n, node, o));
+            }
+            3 => {
+                if !held_f.is_empty() {
+                    let i = rng.below(held_f.len());
+                    let (n, _, _) = held_f.remove(i);
+                    actions.push(format!("drop F({n})"));
+                    for k in 0..=N {
+                        if !alive_f(&held_f, k) && dead_rounds_f[k] == u32::MAX {
+                            dead_rounds_f[k] = 0;
+                        }
+                    }
+                }
+            }
+            4 | 5 => {
+                let id = rng.below(4) as i64;
+                let (b0, v0) = (bcalls.borrow().len(), vcalls.get());
+                let was_alive = held_v.iter().any(|(i, _, _)| *i == id);
+                let b = base_of(id);
+                let v = view_of(b.clone());
+                drop(b);
+                let b_invoked = bcalls.borrow().len() - b0;
+                let v_invoked = vcalls.get() - v0;
+                *calls_checked += 1;
+                actions.push(format!("view(base({id})) invoked base x{b_invoked}, view x{v_invoked} (alive={was_alive})"));
+                if was_alive && (b_invoked != 0 || v_invoked != 0) {
+                    return Err(format!("view(base({id})) invoked a function although its node is still referenced"));
+                }
+                if !was_alive && dead_rounds_v[id as usize] >= 1 && (b_invoked != 1 || v_invoked != 1) {
+                    return Err(format!(
+                        "view(base({id})): every reference was gone and {} stabilise(s) had run, but the base function was invoked {b_invoked} time(s) and the view function {v_invoked} time(s), expected 1 and 1 (a dead entry of the node-keyed table must not keep its key alive)",
+                        dead_rounds_v[id as usize]
+                    ));
+                }
+                if !was_alive {
+                    *nontrivial = true;
+                }
+                if let Some((_, h, _)) = held_v.iter().find(|(i, _, _)| *i == id) {
+                    if *h != v {
+                        return Err(format!("view(base({id})) returned a different node while one is still held"));
+                    }
+                }
+                let o = if rng.chance(1, 2) { Some(v.observe()) } else { None };
+                held_v.push((id, v, o));
+                dead_rounds_v[id as usize] = u32::MAX;
+            }
+            6 => {
+                if !held_v.is_empty() {
+                    let i = rng.below(held_v.len());
+                    let (id, _, _) = held_v.remove(i);
+                    actions.push(format!("drop view({id})"));
+                    if !held_v.iter().any(|(j, _, _)| *j == id) {
+                        dead_rounds_v[id as usize] = 0;
+                    }
+                }
+            }
+            7 => {
+                base_val = rng.range(0, 9);
+                base.set(base_val);
+                actions.push(format!("base={base_val}"));
+            }
+            _ => {
+                st.stabilise();
+                actions.push("stabilise".into());
+                for k in 0..=N {
+                    if alive_f(&held_f, k) {
+                        dead_rounds_f[k] = u32::MAX;
+                    } else if dead_rounds_f[k] != u32::MAX {
+                        dead_rounds_f[k] = dead_rounds_f[k].saturating_add(1).min(1000);
+                    }
+                }
+                for id in 0..4 {
+                    if dead_rounds_v[id] != u32::MAX {
+                        dead_rounds_v[id] = dead_rounds_v[id].saturating_add(1).min(1000);
+                    }
+                }
+                for (n, _, o) in &held_f {
+                    if let Some(o) = o {
+                        match o.try_get_value() {
+                            Ok(x) if x == fref(base_val, *n) => {}
+                            Err(ObserverError::NeverStabilised) => {}
+                            other => return Err(format!("F({n}) reads {:?}, expected {}", other, fref(base_val, *n))),
+                        }
+                    }
+                }
+                for (id, _, o) in &held_v {
+                    if let Some(o) = o {
+                        match o.try_get_value() {
+                            Ok(x) if x == base_val * 10 + id + 1000 => {}
+                            Err(ObserverError::NeverStabilised) => {}
+                            other => return Err(format!("view(base({id})) reads {:?}, expected {}", other, base_val * 10 + id + 1000)),
+                        }
+                    }
+                }
+            }
+        }
+    }
+    drop(held_f);
+    drop(held_v);
+    st.stabilise();
+    Ok(())
+}
+
 pub fn run(seed: u64, shard: u64, count: u64) -> J {
     let (mut nontrivial, mut checked) = (0u64, 0u64);
     let mut violations = vec![];
     let mut samples = vec![];
     for i in 0..count {
         let hseed = mix(mix(seed, shard), i);
-        let o = if i % 3 == 2 { run_history_inner(hseed) } else { run_history(hseed) };
+        let o = match i % 4 {
+            2 => run_history_inner(hseed),
+            3 => run_history_rec(hseed),
+            _ => run_history(hseed),
+        };
         checked += o.calls_checked;
         if o.nontrivial {
             nontrivial += 1;
@@ -434,7 +674,7 @@ pub fn run(seed: u64, shard: u64, count: u64) -> J {
                 violations.push(J::obj(vec![
                     ("property", J::s("C20")),
                     ("message", J::s(format!("{m}; history: {:?}", o.actions))),
-                    ("argv", J::Arr(vec![J::s("memo-one"), J::s(hseed.to_string()), J::s(if i % 3 == 2 { "inner" } else { "top" })])),
+                    ("argv", J::Arr(vec![J::s("memo-one"), J::s(hseed.to_string()), J::s(match i % 4 { 2 => "inner", 3 => "rec", _ => "top" })])),
                 ]));
             }
         }
